@@ -138,7 +138,9 @@ func WorkerMain(t *testing.T) {
 		seed := SeedFor(base, uint64(first+i))
 		// write-ahead: which seed is running, so that a process death is attributable
 		_ = os.WriteFile(cur, []byte(fmt.Sprintf("%d", seed)), 0o644)
+		stop := armWallLimit(p, seed)
 		res := Execute(t, p, seed, tier, Generate, false)
+		stop()
 		wo.Runs++
 		wo.SimTimeMs += res.SimTimeMs
 		wo.Steps += res.Steps
@@ -239,7 +241,9 @@ func replayMain(t *testing.T, p *Property, path, out string) {
 	if rf.Tier == "" {
 		rf.Tier = "quick"
 	}
+	stop := armWallLimit(p, rf.Seed)
 	res := Execute(t, p, rf.Seed, rf.Tier, tape, true)
+	stop()
 	wo := &WorkerOut{Property: p.ID, Runs: 1, Probes: res.Probes, Faults: res.Faults}
 	if res.Infra != "" {
 		wo.Infra = append(wo.Infra, res.Infra)
@@ -259,4 +263,20 @@ func replayMain(t *testing.T, p *Property, path, out string) {
 	if out != "" {
 		_ = os.WriteFile(out, js, 0o644)
 	}
+}
+
+// armWallLimit starts a real-time watchdog for one run (a timer outside any synctest bubble).
+func armWallLimit(p *Property, seed uint64) (stop func()) {
+	limit := p.RunWallLimit
+	if limit == 0 {
+		limit = 5 * time.Minute
+	}
+	if v := envInt("VERIF_RUN_WALL_LIMIT_S", 0); v > 0 {
+		limit = time.Duration(v) * time.Second
+	}
+	tm := time.AfterFunc(limit, func() {
+		fmt.Printf("HANG property=%s seed=%d: the run did not finish within %v of real time - goroutines of the simulated system are blocked outside every seam (the simulator cannot take another step)\n", p.ID, seed, limit)
+		os.Exit(3)
+	})
+	return func() { tm.Stop() }
 }
